@@ -10,3 +10,5 @@ for p in "$@"; do
   echo "== $p exit=$? $(grep -m1 VIOLATION /tmp/verif-mut-$p.log) | $(grep -A1 -m1 VIOLATION /tmp/verif-mut-$p.log | tail -1 | cut -c1-200)"
 done
 git -C /repo checkout -- .
+# files the C07 check regenerates from /repo (now restored): put the committed versions back so that they are never committed in a patched state
+git -C /verif checkout -- coq/theories/Gen/WiringTable.v harness-surfaces/src/main.rs 2>/dev/null
